@@ -322,6 +322,13 @@ def run_sums(case, R):
 
 def run_text(case, R):
     """savetxt/loadtxt: correct or error, never a different monomial"""
+    # the same exponents over indeterminates that are not the leading default names
+    for names_ in (("q0", "q2"), ("q1", "q3"), ("q2", "q10")):
+        for e in (0, 1, 2, 33, 58, 59, 60, 68, 69, 100):
+            for tp in ([(e, 0), (0, 1)], [(e, e), (1, 0)], [(0, e), (e, 1)]):
+                p_ = build_tuples(names_, tp, [2, 3])
+                m_ = tuples_model(names_, tp, [2, 3])
+                text_roundtrip(R, p_, m_, f"exponents {tp} over {names_}", ["text", "other_names"])
     names = ("q0", "q1")
     singles = sorted(set(range(0, 300)) | {1023, 2047, 2048, 8173, 8174, 54999})
     for e in singles:
